@@ -1,7 +1,7 @@
 (* C17 — limit faults fire after exactly the configured expirations; the configured handler runs.
    Pinned statements only. *)
 From CFDP Require Import Base.Prelude Model.Segments Model.Timer Model.TxTypes Model.Recv Model.Send
-  Proofs.TimerP Proofs.FaultP.
+  Proofs.TimerP Proofs.FaultP Proofs.InactP.
 
 (* A timer (re)armed at t0 with its count cleared reaches its limit exactly at
    t0 + max_count * timeout: never earlier, always from then on. *)
@@ -118,6 +118,13 @@ Theorem C17_sender_ack_clears_count : forall now a (s : sstate),
   c_count (t_ack (s_timer s')) = 0 /\ c_paused (t_ack (s_timer s')) = true.
 Proof. exact s_ack_eof_clears. Qed.
 
+(* sender: any PDU received while it waits after its EOF (not suspended) clears the inactivity
+   expirations counted so far *)
+Theorem C17_sender_pdu_clears_inactivity : forall now p (s : sstate),
+  s_phase s = SendEof -> s_state s <> TSuspended ->
+  c_count (t_inact (s_timer (fst (s_process_pdu now p s)))) = 0.
+Proof. exact sender_pdu_clears_inactivity. Qed.
+
 (* non-vacuity: 3 s timeout, limit 2, armed at t = 1 s: the limit is reached at exactly 7 s *)
 Example C17_nonvacuous :
   let c := c_reset 1000 (c_new 0 3000 2) in
@@ -141,3 +148,4 @@ Print Assumptions C17_receiver_one_finished_per_mark.
 Print Assumptions C17_nak_round_progress_resets.
 Print Assumptions C17_nak_round_repeats_below_limit.
 Print Assumptions C17_sender_ack_clears_count.
+Print Assumptions C17_sender_pdu_clears_inactivity.
